@@ -12,6 +12,7 @@ from corr_world import ScriptedWrapper, DRIVER
 class HeurWrapper(ScriptedWrapper):
     def __init__(self, fail=False, fail_at=0):
         super().__init__(); self.calls = []; self.k = 0; self.fail = fail; self.first_value = None; self.expected_tol = None
+        self.heur = None; self.expected_reg = None
         self.fail_at = fail_at          # number of the solve (>= 2: a solve of the dimension-reduction stage) on which the solver reports no value
     def set_main_variables(self): pass
     def generate_problem(self, o): self.objective = o
@@ -40,7 +41,22 @@ class HeurWrapper(ScriptedWrapper):
         # tolerance the user passed, unchanged (absolute tolerance)
         ok = (wc == self.first_value) and (tol == self.expected_tol)
         self.calls.append("prepare" if ok else "prepare[wc=%r,tol=%r;expected wc=%r,tol=%r]" % (wc, tol, self.first_value, self.expected_tol)); self.prep = (wc, tol)
-    def heuristic(self, W): self.calls.append("heuristic")
+    def heuristic(self, W):
+        # contract of the flow model: `trace` hands the identity; round k of `logdetN` hands the inverse of (the Gram matrix of the
+        # previous solve with its eigenvalues below the documented threshold set to 0) + eig_regularization * I, with the
+        # regularisation the user passed, unchanged (0 included)
+        ok = True
+        try:
+            n = Point.counter
+            if self.heur == "trace": ok = np.array_equal(np.asarray(W), np.identity(n))
+            elif self.expected_reg is not None and self.optimal_G is not None:
+                S = (self.optimal_G + self.optimal_G.T) / 2; ev, V = np.linalg.eigh(S)
+                thr = max(np.max(ev) / 1e3, 2 * np.max(-ev)); ev2 = (ev >= thr) * ev
+                want = np.linalg.inv(V @ np.diag(ev2) @ V.T + self.expected_reg * np.eye(n))
+                ok = np.allclose(np.asarray(W), want, rtol=1e-7, atol=1e-9 * np.abs(want).max())
+        except np.linalg.LinAlgError:
+            ok = True           # singular with regularisation 0: the library raises before calling us; not reached
+        self.calls.append("heuristic" if ok else "heuristic[W is not the documented weight matrix for eig_regularization=%r]" % self.expected_reg)
 
 
 def build(rnd):
@@ -78,6 +94,14 @@ def one(seed):
     fail_at = [2, 3, 2, 4, 11][_z.crc32(("failat/%d" % seed).encode()) % 5] if (_z.crc32(("failheur/%d" % seed).encode()) % 5 == 0 and not fail) else 0
     w = HeurWrapper(fail=fail, fail_at=fail_at)
     w.expected_tol = rnd.choice([1e-5, 1e-4, 1e-3, 1e-2])
+    # boundary values of the two numeric options, decided without a random draw: tolerance 0 / 0.0 (the heuristic problem keeps
+    # the optimum exactly), regularisation given explicitly (1e-2, 1e-5) or left to its default 1e-3
+    bz = _z.crc32(("tolzero/%d" % seed).encode()) % 6
+    if bz == 0: w.expected_tol = 0
+    elif bz == 1: w.expected_tol = 0.0
+    reg = [None, None, 1e-2, 1e-5, 1][_z.crc32(("reg/%d" % seed).encode()) % 5]
+    w.heur = heur; w.expected_reg = 1e-3 if reg is None else reg
+    regkw = {} if reg is None else {"eig_regularization": reg}
     verbose = rnd.choice([0, 0, 1, 2, -1])          # the calls made to the solver must not depend on the verbosity
     raises = False; ret = None
     # two programs in five go through the public front-end `PEP.solve(wrapper=<name>, ...)` with the registry of wrappers
@@ -92,13 +116,13 @@ def one(seed):
         with contextlib.redirect_stdout(io.StringIO()):
             if front is None:
                 ret = pep._solve_with_wrapper(w, verbose=verbose, return_primal_or_dual=mode, tol_dimension_reduction=w.expected_tol,
-                                              dimension_reduction_heuristic=None if heur == "none" else heur)
+                                              dimension_reduction_heuristic=None if heur == "none" else heur, **regkw)
             else:
                 saved = dict(pepmod.WRAPPERS)
                 try:
                     pepmod.WRAPPERS["cvxpy"] = lambda verbose=0: w
                     ret = pep.solve(wrapper=front, verbose=max(verbose, 0), return_primal_or_dual=mode, tol_dimension_reduction=w.expected_tol,
-                                    dimension_reduction_heuristic=None if heur == "none" else heur)
+                                    dimension_reduction_heuristic=None if heur == "none" else heur, **regkw)
                 finally:
                     pepmod.WRAPPERS.clear(); pepmod.WRAPPERS.update(saved)
     except ValueError:
